@@ -51,6 +51,29 @@ def respelled(fam, vec):
 
 
 _FOREIGN = {}
+_KEPT = []      # (dictionary returned by as_json, its frozen form at the time, which call)
+
+
+def keep(d, name):
+    """A caller may keep what as_json() returned: it must not change when other calls are made
+    later - on this object, on an equal one, on any other."""
+    if len(_KEPT) < 12000:
+        _KEPT.append((d, frozen(d), name))
+    return d
+
+
+def check_kept():
+    """why-or-None; forgets the kept dictionaries."""
+    why = None
+    for d, was, name in _KEPT:
+        now = frozen(d)
+        if now != was:
+            why = "a dictionary returned earlier by %s has changed since: it was %s and is now %s" % (
+                name, json.dumps(was)[:200], json.dumps(now)[:200])
+            break
+    del _KEPT[:]
+    return why
+
 
 
 def make_ops(fam, vec=None):
@@ -93,7 +116,8 @@ def make_ops(fam, vec=None):
     for s in (False, True):
         for m in (False, True):
             ops.append(("as_json(sort=%s,minimal=%s)" % (s, m),
-                        lambda o, f, s=s, m=m: frozen(o.as_json(sort=s, minimal=m))))
+                        lambda o, f, s=s, m=m: frozen(keep(o.as_json(sort=s, minimal=m),
+                                                           "as_json(sort=%s, minimal=%s)" % (s, m)))))
 
     def json_mutate(o, f, s, m):
         d = o.as_json(sort=s, minimal=m)
@@ -219,8 +243,12 @@ def run_sequence(fam, vec, seq, fresh):
         except Exception as e:  # noqa
             return "%s raised %s: %s (after %s)" % (name, type(e).__name__, e, [ops[j][0] for j in seq[:pos]])
         if r != fresh[i]:
+            del _KEPT[:]
             return "%s returns %s after %s, but %s on a fresh object" % (
                 name, json.dumps(r)[:160], [ops[j][0] for j in seq[:pos]], json.dumps(fresh[i])[:160])
+    why = check_kept()
+    if why:
+        return "%s (sequence %s)" % (why, [ops[j][0] for j in seq])
     return None
 
 
@@ -266,6 +294,9 @@ def long_runs(fam, vec, fresh, n):
             if r != fresh[i]:
                 return calls, None, "%s returns %s in round %d of all operations on one object, but %s on a fresh object" % (
                     name, json.dumps(r)[:160], k + 1, json.dumps(fresh[i])[:160])
+    why = check_kept()
+    if why:
+        return calls, None, why
     return calls, None, None
 
 
@@ -340,6 +371,9 @@ def interposed(fam, vecs, m):
         why = all_ops(v, "after %d other objects went through the same operations" % len(others))
         if why:
             return calls[0], v, why
+    why = check_kept()
+    if why:
+        return calls[0], vecs[0], why
     return calls[0], None, None
 
 
